@@ -9,11 +9,11 @@
 (* evaluated in every state of the trace).                                    *)
 EXTENDS MC_Store, IOUtils
 
-Rec == ndJsonDeserialize(IOEnv.TRACE)
+TraceRecs == ndJsonDeserialize(IOEnv.TRACE)
 
 VARIABLE l
 
-Ev == Rec[l]
+Ev == TraceRecs[l]
 Has(f) == f \in DOMAIN Ev
 ToSet(s) == {s[i] : i \in 1..Len(s)}
 
@@ -30,14 +30,14 @@ ResetAll ==
     /\ filt' = [i \in Ids |-> FALSE]
     /\ ref' = [n \in Names |-> NoRef]
     /\ frozen' = <<>>
-    /\ taint' = {} /\ kf' = {} /\ everDel' = {} /\ ing' = [i \in Ids |-> 0]
+    /\ taint' = {} /\ kf' = {} /\ everDel' = {} /\ ing' = [i \in Ids |-> 0] /\ mtaint' = {}
     /\ nops' = 0 /\ nreopen' = 0 /\ nmaint' = 0 /\ nviews' = 0
     /\ last' = [a |-> "Init"]
 
 TraceInit == Init /\ l = 1
 
 TraceNext ==
-    /\ l <= Len(Rec)
+    /\ l <= Len(TraceRecs)
     /\ l' = l + 1
     /\ \/ Ev.a = "Reset"  /\ ResetAll
        \/ Ev.a = "Create" /\ CreateKeyspace(Ev.name)
@@ -61,6 +61,7 @@ TraceNext ==
                                        LET n == Len(lsm[kmap[Ev.name]].rn) IN
                                        IF Ev.major THEN i = 1 /\ j = n
                                        ELSE i = 1 /\ j = (IF n >= 2 THEN 2 ELSE 1))
+       \/ Ev.a = "Persist" /\ Persist(Ev.mode)
        \/ Ev.a = "OpenView" /\ OpenView
        \/ Ev.a = "CloseView" /\ \E w \in views : w.vid = Ev.vid /\ CloseView(w)
        \/ Ev.a = "GC" /\ TrackerGC
